@@ -131,6 +131,12 @@ def gen_case(seed, i):
                                            # patterns that fully match one entry and are a *string* prefix of a sibling
                                            # (a / a+b, d / d.e / dir w, x / x-y, f.t / f.txt)
                                            "@W@/R1/a", "**/a", "**/d", "**/x", "**/f.t", "a", "@W@/R1/su"])]
+    # the same selection option given twice (patterns are alternatives)
+    for k, pool in (("name", ["*.txt", "k", "README", "?.dat", "*.bin"]),
+                    ("path", ["**/sub/*", "@W@/R1/a/**", "@W@/R1/b/*", "a/**", "b/*", "**/k", "*/*"]),
+                    ("exclude", ["**/*.dat", "@W@/R1/b/**", "**/sub/**", "k"])):
+        if opts.get(k) and not opts.get("regex") and rng.random() < 0.3:
+            opts[k] = opts[k] + [rng.choice(pool)]
     # a directory link sitting exactly at the depth limit (and one just inside it), when both options are on
     if "depth" in opts and opts["depth"] >= 1 and opts["L"] and rng.random() < 0.7:
         at = [d for d in dirs if d.count("/") == opts["depth"] - 1] or [roots[0]]
@@ -161,12 +167,13 @@ def gen_case(seed, i):
             opts["mount"] = rng.choice(subs)        # this subtree is presented as another file system
     rootargs = list(roots)
     r = rng.random()
+    at = rng.randint(0, len(rootargs))     # an inner input path may come before or after the one that contains it
     if r < 0.15:
-        rootargs.append(rng.choice(roots))
+        rootargs.insert(at, rng.choice(roots))
     elif r < 0.35 and len(dirs) > 1:
-        rootargs.append(rng.choice(dirs))
+        rootargs.insert(at, rng.choice(dirs))
     elif r < 0.45 and files:
-        rootargs.append(rng.choice(files))
+        rootargs.insert(at, rng.choice(files))
     return {"i": i, "world": w.to_json(), "roots": rootargs, "opts": opts}
 
 
